@@ -457,3 +457,17 @@ impl Drop for RawPacketStream {
         }
     }
 }
+
+#[cfg(feature = "verif")]
+pub(crate) mod verif_hooks {
+    use super::*;
+
+    /// (pending reply waiters, pending deadlines)
+    pub fn table_sizes(forwarder: &IcmpForwarder) -> (usize, usize) {
+        let listeners = forwarder.shared.listeners.lock().unwrap();
+        (
+            listeners.reply_waiters.len(),
+            listeners.deadlines.values().map(|x| x.len()).sum(),
+        )
+    }
+}
